@@ -628,6 +628,7 @@ class C08(Prop):
     yield from self.mixed_rebind_cases(rng, 60 if tier == 'quick' else 1500)
     yield from self.grid_cases()
     yield from self.discovered_cases()
+    yield from self.shallow_seal_cases()
 
   def history_cases(self, rng, n):
     """seal -> mutate (refused) -> unseal -> mutate (works) -> re-seal after an insertion under
@@ -754,13 +755,29 @@ class C08(Prop):
                                           'method': m, 'args': args, 'cls': cname,
                                           'modelled': m in METHOD_OPS[cname]}]}
 
+  def shallow_seal_cases(self):
+    """Oracle-only family (no model part): a value sealed with the shallow public setter
+    `sym_seal(True)` -- for a pg.Object this leaves the flag of the attribute container unset, so only
+    the object's own guards protect it -- must refuse every entry point of its type."""
+    samples = {'list': val_node('list', [3, 1, 2]), 'dict': val_node('dict', [['a', 1], ['c', 2]]),
+               'obj0': val_node('obj', [['x', 1], ['y', 2], ['z', None]], 0),
+               'obj1': val_node('obj', [['x', 1], ['y', 2], ['z', None]], 1)}
+    ops = {'list': LIST_OPS, 'dict': DICT_OPS, 'obj0': OBJ_OPS, 'obj1': OBJ_OPS}
+    for kind, t in samples.items():
+      for name in ops[kind]:
+        for st in ([], [None], [False, None]):
+          yield {'tree': val_node('dict', [['h', _copy(t)]]), 'steps': [
+              {'kind': 'sym_seal', 'recv': ['h'], 'b': True},
+              {'kind': 'call', 'recv': ['h'], 'sealed_scopes': st, 'acc_scopes': [True],
+               'call': canonical_call(name, t)}]}
+
   def search_cases(self, rng, tier, broken):
     yield from self.generate(rng.fork(), 'thorough' if tier == 'thorough' else 'quick')
     yield from self.generate(rng.fork(), 'quick')
 
   # -- execution --------------------------------------------------------------------------
   def model_request(self, case):
-    if any(s['kind'] == 'generic' for s in case['steps']):
+    if any(s['kind'] in ('generic', 'sym_seal') for s in case['steps']):
       return None
     return {'op': 'run', 'tree': case['tree'], 'steps': case['steps']}
 
@@ -793,6 +810,9 @@ class C08(Prop):
       elif step['kind'] == 'set_acc':
         navigate(root, step['recv']).set_accessor_writable(step['b'])
         o['res'] = 'ok'
+      elif step['kind'] == 'sym_seal':
+        navigate(root, step['recv']).sym_seal(step['b'])
+        o['res'] = 'ok'
       o['tree'] = dump(root)
       outs.append(o)
     return {'model': {'steps': [{'res': o['res'], 'tree': o['tree']} for o in outs]}, 'steps': outs, 'pre': pre0}
@@ -811,7 +831,7 @@ class C08(Prop):
 
   def oracle_step(self, pre, step, o):
     recv = get_at(pre, step['recv'])
-    if step['kind'] in ('seal', 'set_acc'):
+    if step['kind'] in ('seal', 'set_acc', 'sym_seal'):
       if step['kind'] == 'seal' and is_node(recv):
         after = get_at(o['tree'], step['recv'])
         if not deep_flag(after, 's', step['b']):
